@@ -30,7 +30,7 @@ std::vector<std::string> alphabet(const std::string &d)
     if (d == "func") return { "(", ")", "<", ">", "[", "]", "::", " ", "a", "operator", "()", "*", "&", ",", "lambda", "const", "+", "-", "(*", ")(", "{", "}", "#", "=", "~", "with " };
     if (d == "pattern") return { "%", "{", "}", ":", "?", ",", "<", ">", "^", "!", "0", "9", "a", " ", "if-", "endif", "time ", "shortfile ", "message", "%{", "-", "*", "func", "if-debug", "\xe2\x80\x8b", "type",
                                    "%{o?", ",-9", ",-99", "%{o?,2147483647}", "%{o?2147483647,-2147483648}",
-                                   "%{type:<4294967306}", "%{message:*^18446744073709551628}", "%{type:4294967299!}", "%{type:>99999999999999999999!}", ":<", "4294967297", "!}" };   // widths beyond 2^32 / 2^64 (a hand-written number parser wraps)   // composite tokens: an optional attribute (absent from the message), signed and extreme remove counts
+                                   "%{type:<4294967306}", "%{message:*^18446744073709551628}", "%{type:4294967299!}", "%{type:>99999999999999999999!}" };   // widths beyond 2^32 / 2^64 (a hand-written number parser wraps)   // composite tokens: an optional attribute (absent from the message), signed and extreme remove counts
     if (d == "rules") return { "a", ".", "*", "=", "true", "false", ";", "\n", " ", "debug", "+", "[", "(", ")", "\\", "|", "?", "critical", "]", "{" };
     return { "a", "b", "\n", " ", "\xf0\x9f\x98\x80", "(", "\\", "\"", "%", "\x01", ".", "*", "\xcc\x81", "\xe2\x80\xae" };   // message
 }
